@@ -5,10 +5,11 @@
 // the directory the interposer watches), and the final text as <dir>/final.
 #include "vf.hpp"
 #include "mcmap.hpp"
-#include "hep/mc.hpp"
+#include "hep/mc-mpi.hpp"
 
 #include <fstream>
 #include <iostream>
+#include <sstream>
 
 extern "C" void vf_cp_mark(int) __attribute__((weak));
 
@@ -28,6 +29,25 @@ template <typename Chk> struct Wrapper
         if (vf_cp_mark) vf_cp_mark(k);
         bool more = inner(chk);
         if (g_refdir != "-")
+        {
+            std::ofstream o(g_refdir + "/ref." + std::to_string(k));
+            chk.serialize(o);
+        }
+        return more;
+    }
+};
+
+// MPI form (thread ranks of the shim inside this one process: a kill takes all ranks down at once, like a node failure)
+template <typename Chk> struct MpiWrapper
+{
+    hep::mpi_callback<Chk> inner;
+    int rank;
+    bool operator()(MPI_Comm comm, Chk const& chk)
+    {
+        int k = (int)chk.results().size();
+        if (vf_cp_mark && rank == 0) vf_cp_mark(k);
+        bool more = inner(comm, chk);
+        if (g_refdir != "-" && rank == 0)
         {
             std::ofstream o(g_refdir + "/ref." + std::to_string(k));
             chk.serialize(o);
@@ -81,6 +101,33 @@ int main(int argc, char** argv)
         C chk = hep::make_plain_chkpt<double, std::minstd_rand>(in);
         Wrapper<C> cb = {hep::callback<C>(hep::callback_mode::silent_and_write_chkpt, file)};
         return finish(hep::plain(hep::make_integrand<double>(f_plain<double>, 1), remaining(iterations, chk.results().size(), 200), chk, cb));
+    }
+    if (workload == "mpi-plain")
+    {
+        // two ranks (a + b == b + a bitwise, so the seeded reduction order of the shim cannot make a resumed run differ from the uninterrupted one);
+        // only the text of the file is shared, every rank builds its own checkpoint and callback
+        typedef hep::plain_chkpt_with_rng<std::mt19937, double> C;
+        std::stringstream text;
+        text << in.rdbuf();
+        int const P = 2;
+        std::vector<std::string> finals(P);
+        VfWorld world;
+        vf_mpi_run(world, P, 99, [&](int rank, MPI_Comm comm) {
+            std::istringstream mine(text.str());
+            C chk = hep::make_plain_chkpt<double, std::mt19937>(mine);
+            MpiWrapper<C> cb = {hep::mpi_callback<C>(hep::callback_mode::silent_and_write_chkpt, file), rank};
+            C r = hep::mpi_plain(comm, hep::make_integrand<double>(f_plain<double>, 1), remaining(iterations, chk.results().size(), 300), chk, cb);
+            std::ostringstream o;
+            r.serialize(o);
+            finals[rank] = o.str();
+        });
+        if (world.aborted) return 66;
+        if (g_refdir != "-")
+        {
+            std::ofstream o(g_refdir + "/final");
+            o << finals[0];
+        }
+        return 0;
     }
     if (workload == "plain-mt19937")
     {
